@@ -781,6 +781,11 @@ def build_pipeline_inspection(
             created_keys.add(node.context_key)
             key_origin[node.context_key] = index
 
+        # Parameters read from keys that an earlier node deleted (and nobody
+        # re-created since) cannot be resolved at run time. Checked against the
+        # state *before* this node's own creations and deletions take effect.
+        missing_deleted = required_params & deleted_keys
+
         # Update key origin tracking for all created keys
         for key in created_keys:
             if key in deleted_keys:
@@ -796,7 +801,6 @@ def build_pipeline_inspection(
             deleted_keys.update(suppressed_keys)
 
         # Validate parameter availability against deleted keys
-        missing_deleted = (required_params & deleted_keys) - suppressed_keys
         if missing_deleted - set(config_params.keys()):
             node_errors.append(
                 f"Node {index} requires context keys previously deleted: {sorted(missing_deleted)}"
